@@ -48,6 +48,7 @@ class SimSocket(_RealSocket):
         self._closed = False
         self._opts: dict = {}
         self._spid = w.cur_proc().pid
+        self._sworld = w
         if fileno is not None:
             ofd = w.fd_get(fileno)      # EBADF if not open
             self._sfd = fileno
@@ -92,7 +93,7 @@ class SimSocket(_RealSocket):
         try:
             if not self._sclosed:
                 w = World.active
-                if w is not None and not w.aborting:
+                if w is not None and w is self._sworld and not w.aborting:
                     self._sclosed = True
                     p = w.procs.get(self._spid)
                     if p is not None and p.alive and self._sfd in p.fds:
@@ -359,7 +360,7 @@ class SimSocket(_RealSocket):
         w = World.active
         self._sclosed = True
         self._closed = True
-        if w is None:
+        if w is None or w is not self._sworld:
             return
         if w.aborting:
             return
